@@ -1139,7 +1139,14 @@ struct Exec {
         Set<Tag> tags = {};
         bool use_filter = op.at("filter").k == J::Arr;
         returned = guarded([&]() {
-            if (use_filter)
+            if (use_filter && op.at("filter_build").k == J::Arr) {
+                // the set is put together the way a caller prunes a summary: more tags go in, in some order, and
+                // those that are not wanted are taken out again; what is left is "filter"
+                for (auto& t : op.at("filter_build").a) tags.add(make_tag((uint32_t)t.a[0].i, (uint32_t)t.a[1].i));
+                for (auto& t : op.at("filter_build").a)
+                    if (t.a.size() > 2 && t.a[2].i == 0) tags.del(make_tag((uint32_t)t.a[0].i, (uint32_t)t.a[1].i));
+                count("filters_built_with_deletions");
+            } else if (use_filter)
                 for (auto& t : op.at("filter").a) tags.add(make_tag((uint32_t)t.a[0].i, (uint32_t)t.a[1].i));
             lib = read_gds(file.c_str(), op.getd("unit", 0), op.getd("tol", 0), use_filter ? &tags : NULL, &ec);
         });
